@@ -15,19 +15,42 @@ import "runtime"
 func init() { vpRegister("hGC", hGC) }
 
 type gcVal[V any] struct {
-	mk func() V
-	eq func(a, b V) bool
+	mk   func() V
+	eq   func(a, b V) bool
+	snap func(V) uint64 // content behind the value's pointers, recorded at insert time
 }
 
+var gcChurn [][]byte
+
+// gcCollect (native replays only): collect twice, then allocate garbage of the small size classes so that any
+// object the collector wrongly freed is overwritten before it is read back.
 func gcCollect() {
-	if vpGCNative {
-		runtime.GC()
+	if !vpGCNative {
+		return
+	}
+	runtime.GC()
+	runtime.GC()
+	gcChurn = gcChurn[:0]
+	for i := 0; i < 4000; i++ {
+		p := new(int)
+		*p = 0x5a5a5a5a
+		s := []int{0x5a5a5a5a, 0x5a5a5a5a}
+		b := make([]byte, 2+i%3)
+		for j := range b {
+			b[j] = 0x5a
+		}
+		if i%64 == 0 {
+			gcChurn = append(gcChurn, b)
+		}
+		runtime.KeepAlive(p)
+		runtime.KeepAlive(s)
 	}
 }
 
 type gcEnt[K, V any] struct {
 	k    K
 	v    V
+	sn   uint64
 	live bool
 }
 
@@ -41,12 +64,13 @@ func runGC[K any, V any](newTree func() Tree[K, V], newKey func() K, eq func(a, 
 			// values of arbitrary type cannot be merged by ite: fork on the match (concrete afterwards)
 			if m {
 				ents[i].v = v
+				ents[i].sn = vv.snap(v)
 				ents[i].live = true
 			}
 			found = vpOr(found, eq(ents[i].k, k))
 		}
 		if !found {
-			ents = append(ents, gcEnt[K, V]{k, v, true})
+			ents = append(ents, gcEnt[K, V]{k, v, vv.snap(v), true})
 		}
 	}
 	nIns := vpParam(2)
@@ -82,7 +106,7 @@ func runGC[K any, V any](newTree func() Tree[K, V], newKey func() K, eq func(a, 
 		got, ok := t.Search(ents[i].k)
 		vpAssert(ok, "C18 a stored key is no longer found")
 		if ok {
-			vpAssert(vv.eq(got, ents[i].v), "C18 a stored value no longer equals what was inserted (Search)")
+			vpAssert(vpAnd(vv.eq(got, ents[i].v), vv.snap(got) == ents[i].sn), "C18 a stored value no longer equals what was inserted (Search)")
 		}
 	}
 	cnt := 0
@@ -92,7 +116,7 @@ func runGC[K any, V any](newTree func() Tree[K, V], newKey func() K, eq func(a, 
 		for i := range ents {
 			if ents[i].live && eq(ents[i].k, k) {
 				hit = true
-				vpAssert(vv.eq(v, ents[i].v), "C18 a stored value no longer equals what was inserted (All)")
+				vpAssert(vpAnd(vv.eq(v, ents[i].v), vv.snap(v) == ents[i].sn), "C18 a stored value no longer equals what was inserted (All)")
 			}
 		}
 		vpAssert(hit, "C18 iteration yielded a key that is not stored")
@@ -151,7 +175,7 @@ func gcByKind[V any](kind int, vv gcVal[V]) {
 		e := &collEnv{}
 		i := 0
 		runGC(func() Tree[string, V] { return NewCollationSortedTree[string, V]() },
-			func() string { u := e.define(cSpecH(i%3, 2)); i++; return collString(u) },
+			func() string { u := e.define(cSpecH(i%3, 2)); i++; e.onInsert(u); return collString(u) },
 			func(a, b string) bool { return a == b }, func(a, b string) bool { return a < b }, vv, false)
 	default:
 		vpFail("unknown kind for hGC")
@@ -167,16 +191,20 @@ func hGC() {
 	kind := vpParam(0)
 	switch vpParam(1) {
 	case 0:
-		gcByKind(kind, gcVal[*int]{mk: func() *int { p := new(int); *p = int(vpU8()); return p }, eq: func(a, b *int) bool { return a == b && *a == *b }})
+		gcByKind(kind, gcVal[*int]{mk: func() *int { p := new(int); *p = int(vpU8()); return p }, eq: func(a, b *int) bool { return a == b && *a == *b },
+			snap: func(p *int) uint64 { return uint64(*p) }})
 	case 1:
-		gcByKind(kind, gcVal[string]{mk: func() string { return vpString(2) }, eq: func(a, b string) bool { return a == b }})
+		gcByKind(kind, gcVal[string]{mk: func() string { return vpString(2) }, eq: func(a, b string) bool { return a == b },
+			snap: func(s string) uint64 { return uint64(s[0])<<8 | uint64(s[1]) }})
 	case 2:
 		gcByKind(kind, gcVal[[]int]{mk: func() []int { return []int{int(vpU8()), 7} },
-			eq: func(a, b []int) bool { return len(a) == len(b) && len(a) == 2 && vpAnd(a[0] == b[0], a[1] == b[1]) }})
+			eq:   func(a, b []int) bool { return len(a) == len(b) && len(a) == 2 && vpAnd(a[0] == b[0], a[1] == b[1]) },
+			snap: func(s []int) uint64 { return uint64(s[0])<<8 | uint64(s[1]) }})
 	case 3:
-		gcByKind(kind, gcVal[struct{}]{mk: func() struct{} { return struct{}{} }, eq: func(a, b struct{}) bool { return true }})
+		gcByKind(kind, gcVal[struct{}]{mk: func() struct{} { return struct{}{} }, eq: func(a, b struct{}) bool { return true }, snap: func(struct{}) uint64 { return 0 }})
 	case 4:
-		gcByKind(kind, gcVal[big16]{mk: func() big16 { var x big16; x[0], x[15] = vpU64(), vpU64(); return x }, eq: func(a, b big16) bool { return a == b }})
+		gcByKind(kind, gcVal[big16]{mk: func() big16 { var x big16; x[0], x[15] = vpU64(), vpU64(); return x }, eq: func(a, b big16) bool { return a == b },
+			snap: func(x big16) uint64 { return x[0] ^ x[15] }})
 	default:
 		vpFail("unknown value type for hGC")
 	}
